@@ -77,6 +77,21 @@ MUTANTS = [
      "        if self._REGISTRY is getattr(other, \"_REGISTRY\", None):\n            return True\n",
      "        if self._REGISTRY is getattr(other, \"_REGISTRY\", None) or other.__class__ is self.__class__:\n            return True\n",
      r"_check.*(same_registry|raises)"),
+    ("addsub-adds-raw-magnitudes", "C03", "pint/facets/plain/quantity.py",
+     "                magnitude = op(self._magnitude, other.to(self._units).magnitude)\n",
+     "                magnitude = op(self._magnitude, other._magnitude)\n", r"_add_sub.*physical_value"),
+    ("addsub-skips-dimension-check", "C03", "pint/facets/plain/quantity.py",
+     "        if not self.dimensionality == other.dimensionality:\n            raise DimensionalityError(\n                self._units, other._units, self.dimensionality, other.dimensionality\n            )\n\n        # Next we define",
+     "        # Next we define", r"_add_sub.*(raises|DimensionalityError)"),
+    ("muldiv-units-of-self-only", "C03", "pint/facets/plain/quantity.py",
+     "        units = units_op(new_self._units, other._units)\n\n        return self.__class__(magnitude, units)\n\n    def __imul__",
+     "        units = new_self._units\n\n        return self.__class__(magnitude, units)\n\n    def __imul__", r"_mul_div.*(factor_of|dimensions|physical)"),
+    ("convert-identical-units-doubles", "C02", "pint/facets/plain/registry.py",
+     "        if src == dst:\n            return value\n\n        return self._convert(value, src, dst, inplace)",
+     "        if src == dst:\n            return value * 2\n\n        return self._convert(value, src, dst, inplace)", r"Registry.convert.*value_times_ratio"),
+    ("nonmult-convert-swaps", "C02", "pint/facets/nonmultiplicative/registry.py",
+     "            return super()._convert(value, src, dst, inplace)\n", "            return super()._convert(value, dst, src, inplace)\n",
+     r"NonMultiplicativeRegistry._convert.*(value_times_ratio|raises)"),
 ]
 
 
